@@ -201,7 +201,8 @@ class _Quota(Client):
         self.problems: List[Tuple[int, str]] = []
 
     def should_inline(self, func, call, ctx):
-        return False
+        # the worker's own private helpers (`_process_chunk`, `_send_result`) are part of the round
+        return func.cls is not None and func.cls in self.pf.worker.repo_mro() and func.name.startswith("_") and not func.name.startswith("__")
 
     def event(self, kind, node, state, ctx):
         put, dec = state
